@@ -106,6 +106,15 @@ func intervalOver(il *IPRequestLimiter, now time.Time) bool {
 //@   callsite WriteHeader requires tooManyOnlyIfNotOk: arg1 == 429 ==> !ok
 //@   callsite Count requires noSecondRead: false
 
+// ipFromRequest: a request is attributed to the X-Forwarded-For value when present, otherwise to
+// the host part of its remote address (never to the port-qualified address, so one client has one counter).
+//@ func ipFromRequest
+//@   wiring
+//@   callsite Get requires forwardedHeader: arg1 == "X-Forwarded-For"
+//@   callsite SplitHostPort requires fromRemoteAddr: arg0 == req.RemoteAddr
+//@   callsite ParseIP requires hostPartOnly: arg0 == ip
+//@   exit 1 requires forwardedValueWins: ret0 == forwardIP && forwardIP != "" && ret1 == nil
+
 // lemmaQuota: k consecutive requests of one address that is not white-listed, all
 // within the running interval, are numbered c0+1 .. c0+k in order, each reported
 // with the configured maximum, and exactly those numbered <= MaxNrRequests pass.
